@@ -96,10 +96,11 @@ string do_espnet(const vector<string> &a) {
     ref_reply = c06::g_sent[1];
     c06::g_sent.clear();
   }
-  EsTwin t[3];
+  EsTwin t[4];
   t[0].setup(a[1]);
   t[1].setup(a[1]);
   t[2].setup(a[1]);
+  t[3].setup(a[1]);
   c06::Trace tr;
   for (size_t k = 2; k < a.size(); k++) {
     bool self = !a[k].empty() && a[k][0] == '@';
@@ -108,7 +109,9 @@ string do_espnet(const vector<string> &a) {
     string o1 = t[1].deliver(c06::POISON[1], d, self, ref_ack, ref_reply);
     string o2;
     { c06::PrevMode pm; o2 = t[2].deliver(c06::POISON[2], d, self, ref_ack, ref_reply); }
-    tr.add3(o0, o1, o2);
+    string o3;
+    { c06::KernelMode km; o3 = t[3].deliver(c06::POISON[3], d, self, ref_ack, ref_reply); }
+    tr.add4(o0, o1, o2, o3);
   }
   return tr.result();
 }
